@@ -262,7 +262,9 @@ func runTcpWire(c *TcpCase, res *TcpResult) {
 	for step, op := range ops {
 		switch op.Op {
 		case "write":
-			n, err := tr.Write(mk(op.N))
+			wb := mk(op.N)
+			n, err := tr.Write(wb)
+			scribble(wb) // Write has returned: the buffer is the caller's again
 			if err != nil || n != op.N {
 				fail("write-result", fmt.Sprintf("Write(%d bytes) returned (%d, %v)", op.N, n, err), step)
 			}
@@ -273,7 +275,11 @@ func runTcpWire(c *TcpCase, res *TcpResult) {
 				bufs = append(bufs, mk(k))
 				t += k
 			}
+			held := append(net.Buffers(nil), bufs...)
 			n, err := tr.Writev(bufs)
+			for _, b := range held {
+				scribble(b)
+			}
 			if err != nil || int(n) != t {
 				fail("writev-result", fmt.Sprintf("Writev(%v) returned (%d, %v)", op.Ns, n, err), step)
 			}
